@@ -14,6 +14,7 @@ import (
 	"bytes"
 	"fmt"
 	"os"
+	"runtime/pprof"
 	"strconv"
 	"strings"
 	"sync"
@@ -312,11 +313,11 @@ func genCase(seed uint64, thorough bool) []string {
 	c := newCase()
 	defer c.close()
 	c.lines = append(c.lines, strings.Join(resetLine(), " ")+" =>")
-	mode := r.Intn(10) // 0-5 time rotation, 6-8 space rotation, 9 space + oversized entries
+	mode := r.Intn(20) - 10 // <6 time rotation, 6-8 space rotation, 9 space + oversized entries (MBs of memmove per step: fewer, shorter)
 	style := r.Intn(4) // 0,1 prompt flush; 2 random; 3 lagging
 	steps := 20 + r.Intn(181)
 	if mode >= 6 {
-		steps = 20 + r.Intn(70)
+		steps = 20 + r.Intn(81)
 	}
 	want := 1 + r.Intn(3)
 	ts := int64(1 + r.Intn(1000))
@@ -347,7 +348,7 @@ func genCase(seed uint64, thorough bool) []string {
 				ts = 1
 			}
 			dlen := r.Intn(40)
-			if mode >= 6 && r.Chance(3, 4) {
+			if mode >= 6 && r.Chance(1, 4) {
 				dlen = 900000 + r.Intn(1400000)
 				if r.Chance(1, 8) {
 					dlen = log_buffer.BufferSize - 40 + r.Intn(40) // right at the capacity boundary
@@ -424,6 +425,11 @@ func replay(ops [][]string) []string {
 
 func main() {
 	a := hx.ParseArgs()
+	if p := os.Getenv("C22_PROF"); p != "" {
+		f, _ := os.Create(p)
+		pprof.StartCPUProfile(f)
+		defer pprof.StopCPUProfile()
+	}
 	tr := hx.NewTrace(a.Out)
 	defer tr.Close()
 	tr.Comment(fmt.Sprintf("c22 seed=%d tier=%s BufferSize=%d PreviousBufferCount=%d", a.Seed, a.Tier, log_buffer.BufferSize, log_buffer.PreviousBufferCount))
@@ -444,7 +450,7 @@ func main() {
 		emit(replay(hx.ReadOps(a.Ops)))
 		return
 	}
-	n := a.N(300)
+	n := a.N(100)
 	results := make([][]string, n)
 	var wg sync.WaitGroup
 	sem := make(chan struct{}, 8)
